@@ -29,13 +29,19 @@ MANIFEST = dict(
           "rm(0) = b^2/a, rm(+-90) = a^2/b, rm monotone in |phi|; linear_velocity = omega * rp; height adds (h/a)(cos phi, sin phi); "
           "distance is symmetric, (0, 0) for coincident points, a*|dlambda| along the equator for |dlambda| < 180 "
           "(the Andoyer correction terms vanish there); antipodal points: the model (exact reals) divides by zero; "
+          "distance IS Andoyer's formula with exactly three cases (s = 0, c = 0, else; no threshold, no near-antipodal branch), is "
+          "360-periodic in either longitude, s + c = 1 (haversine: omega = asin sqrt s), on a sphere it is the great-circle distance, "
+          "for every valid ellipsoid it lies within [(1-2f), (1+f)] of the great circle 2 omega a (the correction is in [-2, 1] because "
+          "P/c + Q/s <= 1), hence within 0.6 % of the great circle on the mean sphere (2a+b)/3 for f <= 0.0035: the 0.6 % clause is "
+          "a theorem; on a meridian it equals the first-order meridian arc a[(1-f/2)|dphi| - (3f/2) sin|dphi| cos(phi1+phi2)] "
+          "exactly (so the 1e-4 clause is an O(f^2) statement, measured only); rp = a / 0 and the limit (0, b/a + h/a) of the observer's "
+          "coordinates at the equator / poles; Earth.rho is even, 1 at the equator, 0.9966472 = b/a(IAU76) at the poles, in between; "
           "parallax_correction and parallax_ecliptical (as repaired by f8a396f, ea54de3): declination / latitude in [-90, 90], "
           "longitude in [0, 360), and for EVERY input with the body outside the Earth the angular displacement p satisfies "
           "cos p >= sqrt(1 - s^2), p <= asin s with s = rho sin 8.794''/distance (vector geometry + Cauchy-Schwarz); "
           "(alpha', delta') -> (alpha, delta) as distance -> infinity for |delta| < 90 (Filter.Tendsto). "
           "The model is tied to /repo by running its binary64 instantiation against the real code bit for bit. "
-          "Numerical only (no theorem, (S)+(I)): distance vs the meridian-arc integral (1e-4), distance vs great circle "
-          "(0.6 %, sphere of mean radius, f <= 0.0034)."),
+          "Numerical only (no theorem, (S)+(I)): distance vs the meridian-arc integral to 1e-4 (second order in f)."),
     note=("Trusted: Lean kernel, Mathlib, axioms propext/Classical.choice/Quot.sound; the hand-written model "
           "(lean/templates/Ellipsoid.lean, Kepler.lean for the Angle helpers) and its bit-exact correspondence run; the "
           "idealisation binary64 -> reals; the Simpson quadrature and the vector formula used as oracles. Known finding: "
